@@ -46,6 +46,13 @@ EmitPre ==
      \/ Out(Sel(<<Root>> \o ss, doc, [pre |-> <<32, 0, 0, 0, 0, 0, 0, 0, 32, 0, 0, 0, 64, 0, 0, 0>>, preoffs |-> <<8>>]))
      \/ Out(Sel(<<Pred(EExists(<<Root>> \o ss))>>, doc, [pre |-> <<9, 9, 9>>, preoffs |-> <<3>>]))
 
+\* the same selections with the document given as JSON text (the convenience functions accept it)
+TextSel(s) == [rp |-> <<IF s.a.path = <<Root>> THEN 3 ELSE 1>>, fl |-> FL] @@ s
+EmitText ==
+  \/ \E ss \in UNION {[1..k -> NavSteps] : k \in 0..1} : Out(TextSel(Sel(<<Root>> \o ss, doc, NoArg)))
+  \/ \E ss \in {<<BrW, BrW>>, <<BrW, Dot(ka)>>, <<BrW, FilterSt(c1)>>, <<FilterSt(c2)>>, <<DotW, BrW>>} : Out(TextSel(Sel(<<Root>> \o ss, doc, NoArg)))
+  \/ \E e \in {EExists(<<Root, BrW>>), EBin("gt", EPaths(<<Root, BrW>>), EVal(PNum(u1)))} : Out(TextSel(Sel(<<Pred(e)>>, doc, NoArg)))
+
 Emit ==
   /\ stage = "doc"
   /\ CASE Family = "nav" -> EmitNav
@@ -53,6 +60,7 @@ Emit ==
        [] Family = "pred" -> EmitPred
        [] Family = "err" -> EmitErr
        [] Family = "pre" -> EmitPre
+       [] Family = "text" -> EmitText
        [] OTHER -> FALSE
 Next == Pick \/ Emit
 Spec == Init /\ [][Next]_vars
